@@ -223,7 +223,17 @@ func remapAndFill(c *props.Ctx, fns []*ssa.Function) {
 		}
 	}
 	perF := map[string]int{}
-	for _, s := range eng.FillRules(helper, callers, mc.ModelingPath) {
+	sites := eng.FillRules(helper, callers, mc.ModelingPath)
+	nFill := 0
+	for _, s := range sites {
+		if s.Rule == "FILL-1" {
+			nFill++
+		}
+	}
+	if nFill < 2 {
+		c.R.Undecide("FILL-1", p.FuncName(helper)+"→FILL-1", p.Pos(helper.Pos()), fmt.Sprintf("%d zero-fill(s) recognised in the attribute-combining helper, two are expected (one per mesh whose attribute may be missing): the fill is not a counted loop of the helper or of one of its function literals bounded by a vertex-count parameter", nFill))
+	}
+	for _, s := range sites {
 		if p.IsControl(s.Fn.Pos()) {
 			continue
 		}
